@@ -41,6 +41,7 @@ func c15(r *core.Run) {
 			return ok && gl.Name() == "ErrNotFound"
 		})
 	}
+	c15HasPin(r, get)
 	// CreatePin
 	r.Saw(core.FuncName(cp))
 	r.Eval(core.EdgeCount(cp))
